@@ -408,21 +408,21 @@ Definition dk_ok (an : path -> bool) (disk : list path) : Prop :=
   forall q, mem_path q disk = an q && negb (mem_path q base) && nonroot q.
 
 (* the walk of started_building_file stops: the counter of [parent] was positive *)
-Lemma start_stop : forall g an0 (an1 : path -> bool) K cr er parent n,
+Lemma start_stop : forall g an0 (an1 : path -> bool) K cr er parent n0 n,
   NoDup (keys K) ->
   (forall d, path_eqb parent d = false -> cnt_good g K d) ->
-  cnt_get K parent = Some n -> S n = g parent + nkids K parent ->
+  cnt_get K parent = Some n0 -> S n = g parent + nkids K parent ->
   (forall q, inK K q = true -> an1 q = true) ->
   cr_ok K cr -> er_ok an0 K er ->
   let K1 := cnt_set K parent (S n) in
   NoDup (keys K1) /\ (forall d, cnt_good g K1 d) /\ (forall q, inK K1 q = true -> an1 q = true) /\
   cr_ok K1 cr /\ er_ok an0 K1 er.
 Proof.
-  intros g an0 an1 K cr er parent n Hnd Hgood Hget Hn Han Hcr Her K1.
+  intros g an0 an1 K cr er parent n0 n Hnd Hgood Hget Hn Han Hcr Her K1.
   assert (HinK : forall q, inK K1 q = inK K q).
   { intro q. unfold K1. rewrite inK_set. destruct (path_eqb parent q) eqn:E; [|reflexivity].
     apply path_eqb_eq in E. subst q. unfold inK. rewrite Hget. reflexivity. }
-  assert (Hkids : forall d, nkids K1 d = nkids K d) by (intro d; apply (nkids_set_old _ _ _ n); exact Hget).
+  assert (Hkids : forall d, nkids K1 d = nkids K d) by (intro d; apply (nkids_set_old _ _ _ n0); exact Hget).
   split; [apply nodup_set; exact Hnd|]. split; [|split; [|split]].
   - intro d. unfold cnt_good, K1. rewrite cnt_get_set. fold K1. rewrite Hkids.
     destruct (path_eqb parent d) eqn:E.
@@ -540,7 +540,7 @@ Proof.
       destruct (mem_path [] cds); cbn [fst bd_with bd_counts bd_created bd_err_created] in *;
         (split; [exact H1|]; split; [exact Hall|]; split; [exact H5|]; split; [exact H6|exact H7]).
     + assert (Hn : S (S m) = g [] + nkids (bd_counts b) []) by lia.
-      destruct (start_stop g an0 an1 _ _ _ [] (S m) Hnd Hgood Hget Hn Han Hcr Her) as (H1 & H2 & H3 & H4 & H5).
+      destruct (start_stop g an0 an1 _ _ _ [] (S m) (S m) Hnd Hgood Hget Hn Han Hcr Her) as (H1 & H2 & H3 & H4 & H5).
       simpl Nat.ltb. cbv iota. cbn [fst bd_with bd_counts bd_created bd_err_created].
       split; [exact H1|]; split; [exact H2|]; split; [exact H3|]; split; [exact H4|exact H5].
   - remember (g (x :: d) + nkids (bd_counts b) (x :: d) - 1) as m eqn:Em.
@@ -564,8 +564,273 @@ Proof.
       destruct (mem_path (x :: d) cds); apply IH; cbn [fst bd_with bd_counts bd_created bd_err_created] in *;
         assumption.
     + assert (Hn : S (S m) = g (x :: d) + nkids (bd_counts b) (x :: d)) by lia.
-      destruct (start_stop g an0 an1 _ _ _ (x :: d) (S m) Hnd Hgood Hget Hn Han Hcr Her) as (H1 & H2 & H3 & H4 & H5).
+      destruct (start_stop g an0 an1 _ _ _ (x :: d) (S m) (S m) Hnd Hgood Hget Hn Han Hcr Her) as (H1 & H2 & H3 & H4 & H5).
       simpl Nat.ltb. cbv iota. cbn [fst bd_with bd_counts bd_created bd_err_created].
       split; [exact H1|]; split; [exact H2|]; split; [exact H3|]; split; [exact H4|exact H5].
+Qed.
+
+Lemma mk_S : forall n, mk (n + 1) = Some (n + 1).
+Proof. intro n. replace (n + 1) with (S n) by lia. reflexivity. Qed.
+
+Lemma fail_step : forall g (an : path -> bool) K cr er parent n,
+  NoDup (keys K) ->
+  (forall d, path_eqb parent d = false -> cnt_good g K d) ->
+  cnt_get K parent = Some n -> g parent + nkids K parent = 0 ->
+  (forall q, inK K q = true -> an q = true) ->
+  cr_ok K cr -> er_ok an K er ->
+  let K1 := cnt_del K parent in
+  let cr2 := if mem_path parent cr then del_path parent cr else cr in
+  let er2 := if mem_path parent cr then add_path parent er else er in
+  NoDup (keys K1) /\ cnt_good g K1 parent /\
+  (forall d, path_eqb parent d = false -> is_child parent d = false -> cnt_good g K1 d) /\
+  (forall d, is_child parent d = true -> cnt_get K1 d = Some (g d + nkids K1 d + 1)) /\
+  (forall q, inK K1 q = true -> an q = true) /\
+  cr_ok K1 cr2 /\ er_ok an K1 er2.
+Proof.
+  intros g an K cr er parent n Hnd Hgood Hget Hzero Han Hcr Her K1 cr2 er2.
+  assert (Hkids : forall d, nkids K1 d + (if is_child parent d then 1 else 0) = nkids K d)
+    by (intro d; apply (nkids_del _ _ n); assumption).
+  assert (HinKp : inK K parent = true) by (unfold inK; rewrite Hget; reflexivity).
+  split; [apply nodup_del; exact Hnd|]. split; [|split; [|split; [|split; [|split]]]].
+  - unfold cnt_good, K1. rewrite cnt_get_del, path_eqb_refl. fold K1.
+    specialize (Hkids parent). rewrite is_child_self in Hkids.
+    replace (g parent + nkids K1 parent) with 0 by lia. reflexivity.
+  - intros d E Hc. unfold cnt_good, K1. rewrite cnt_get_del, E. fold K1.
+    specialize (Hkids d). rewrite Hc in Hkids. replace (nkids K1 d) with (nkids K d) by lia.
+    apply Hgood. exact E.
+  - intros d Hc.
+    assert (E : path_eqb parent d = false).
+    { apply path_eqb_neq. intro Heq. subst d. rewrite is_child_self in Hc. discriminate. }
+    unfold K1. rewrite cnt_get_del, E. fold K1. specialize (Hkids d). rewrite Hc in Hkids.
+    rewrite (Hgood d E). replace (g d + nkids K d) with (g d + nkids K1 d + 1) by lia. apply mk_S.
+  - intros q Hq. unfold K1 in Hq. rewrite inK_del in Hq. apply andb_true_iff in Hq. apply Han. apply Hq.
+  - intro q. unfold K1. rewrite inK_del. unfold cr2. destruct (path_eqb parent q) eqn:E.
+    + apply path_eqb_eq in E. subst q. simpl. destruct (mem_path parent cr) eqn:E2.
+      * rewrite mem_del_path, path_eqb_refl. reflexivity.
+      * exact E2.
+    + simpl. destruct (mem_path parent cr).
+      * rewrite mem_del_path, E. simpl. apply Hcr.
+      * apply Hcr.
+  - intro q. unfold K1. rewrite inK_del. unfold er2. destruct (path_eqb parent q) eqn:E.
+    + apply path_eqb_eq in E. subst q. simpl. pose proof (Hcr parent) as Hc. rewrite HinKp in Hc. simpl in Hc.
+      destruct (mem_path parent cr) eqn:E2.
+      * rewrite mem_add_path, path_eqb_refl. simpl. rewrite (Han _ HinKp). simpl.
+        destruct (mem_path parent base), (nonroot parent); simpl in *; congruence.
+      * rewrite Her, HinKp. simpl.
+        destruct (an parent), (mem_path parent base), (nonroot parent); simpl in *; congruence.
+    + simpl. destruct (mem_path parent cr).
+      * rewrite mem_add_path, E. simpl. apply Her.
+      * apply Her.
+Qed.
+
+Lemma error_from_eq : forall b parent,
+  bd_error_from b parent =
+  match cnt_get (bd_counts b) parent with
+  | None => None
+  | Some n =>
+      let count := n - 1 in
+      if Nat.ltb 0 count then
+        Some (bd_with b (cnt_set (bd_counts b) parent count) (bd_created b) (bd_err_created b)
+                      (bd_removed b) (bd_exists b) (bd_maybe b) (bd_removed_files b))
+      else
+        let b1 := bd_with b (cnt_del (bd_counts b) parent) (bd_created b) (bd_err_created b)
+                          (bd_removed b) (bd_exists b) (bd_maybe b) (bd_removed_files b) in
+        let b2 :=
+          if mem_path parent (bd_created b1) then
+            bd_with b1 (bd_counts b1) (del_path parent (bd_created b1)) (add_path parent (bd_err_created b1))
+                    (bd_removed b1) [] (add_path parent (bd_maybe b1)) (bd_removed_files b1)
+          else b1 in
+        match parent with [] => Some b2 | _ :: d => bd_error_from b2 d end
+  end.
+Proof. intros. destruct parent; reflexivity. Qed.
+
+(* B1a at the level of the walk: with one reservation too many at [parent] the walk
+   of error_building_file never raises KeyError and restores the invariant *)
+Lemma fail_walk : forall g an parent b,
+  NoDup (keys (bd_counts b)) ->
+  (forall d, path_eqb parent d = false -> cnt_good g (bd_counts b) d) ->
+  cnt_get (bd_counts b) parent = Some (g parent + nkids (bd_counts b) parent + 1) ->
+  (forall q, inK (bd_counts b) q = true -> an q = true) ->
+  cr_ok (bd_counts b) (bd_created b) -> er_ok an (bd_counts b) (bd_err_created b) ->
+  exists b', bd_error_from b parent = Some b' /\ walk_post g an an b'.
+Proof.
+  intros g an. induction parent as [|x d IH]; intros b Hnd Hgood Hget Han Hcr Her;
+    rewrite error_from_eq, Hget; cbv zeta.
+  - remember (g [] + nkids (bd_counts b) []) as m eqn:Em. destruct m as [|m].
+    + destruct (fail_step g an _ _ _ [] _ Hnd Hgood Hget (eq_sym Em) Han Hcr Her)
+        as (H1 & H2 & H3 & _ & H5 & H6 & H7).
+      assert (Hall : forall d, cnt_good g (cnt_del (bd_counts b) []) d).
+      { intro d. destruct (path_eqb [] d) eqn:E.
+        - apply path_eqb_eq in E. subst d. exact H2.
+        - apply H3; [exact E|reflexivity]. }
+      simpl Nat.ltb. cbv iota. cbn [bd_with bd_counts bd_created bd_err_created].
+      eexists. split; [reflexivity|].
+      destruct (mem_path [] (bd_created b)); cbn [fst bd_with bd_counts bd_created bd_err_created] in *;
+        (split; [exact H1|]; split; [exact Hall|]; split; [exact H5|]; split; [exact H6|exact H7]).
+    + replace (S m + 1 - 1) with (S m) by lia. simpl Nat.ltb. cbv iota.
+      destruct (start_stop g an an _ _ _ [] _ m Hnd Hgood Hget Em Han Hcr Her) as (H1 & H2 & H3 & H4 & H5).
+      eexists. split; [reflexivity|]. cbn [fst bd_with bd_counts bd_created bd_err_created].
+      split; [exact H1|]; split; [exact H2|]; split; [exact H3|]; split; [exact H4|exact H5].
+  - remember (g (x :: d) + nkids (bd_counts b) (x :: d)) as m eqn:Em. destruct m as [|m].
+    + destruct (fail_step g an _ _ _ (x :: d) _ Hnd Hgood Hget (eq_sym Em) Han Hcr Her)
+        as (H1 & H2 & H3 & H4 & H5 & H6 & H7).
+      pose proof (H4 d (is_child_tl x d)) as H4a.
+      assert (Hgood' : forall d', path_eqb d d' = false -> cnt_good g (cnt_del (bd_counts b) (x :: d)) d').
+      { intros d' E. destruct (path_eqb (x :: d) d') eqn:E2.
+        - apply path_eqb_eq in E2. subst d'. exact H2.
+        - apply H3; [exact E2|]. simpl. exact E. }
+      simpl Nat.ltb. cbv iota. cbn [bd_with bd_counts bd_created bd_err_created].
+      destruct (mem_path (x :: d) (bd_created b)); apply IH;
+        cbn [fst bd_with bd_counts bd_created bd_err_created] in *; assumption.
+    + replace (S m + 1 - 1) with (S m) by lia. simpl Nat.ltb. cbv iota.
+      destruct (start_stop g an an _ _ _ (x :: d) _ m Hnd Hgood Hget Em Han Hcr Her) as (H1 & H2 & H3 & H4 & H5).
+      eexists. split; [reflexivity|]. cbn [fst bd_with bd_counts bd_created bd_err_created].
+      split; [exact H1|]; split; [exact H2|]; split; [exact H3|]; split; [exact H4|exact H5].
+Qed.
+
+(* ---- the invariant of the shared state *)
+Hypothesis base_up : forall x d, mem_path (x :: d) base = true -> mem_path d base = true.
+
+Definition Inv (nf : path -> nat) (an : path -> bool) (s : dstate) : Prop :=
+  walk_post nf an an (d_bd s) /\ dk_ok an (d_disk s).
+
+Lemma Inv_ext : forall nf nf' an an' s,
+  (forall d, nf d = nf' d) -> (forall q, an q = an' q) -> Inv nf an s -> Inv nf' an' s.
+Proof.
+  intros nf nf' an an' s Hnf Han [(H1 & H2 & H3 & H4 & H5) H6].
+  split; [split; [exact H1|]; split; [|split; [|split]]|].
+  - intro d. unfold cnt_good. rewrite <- Hnf. apply H2.
+  - intros q Hq. rewrite <- Han. apply H3. exact Hq.
+  - exact H4.
+  - intro q. rewrite <- Han. apply H5.
+  - intro q. rewrite <- Han. apply H6.
+Qed.
+
+Lemma mk_pos : forall n, 1 <= n -> mk n = Some n.
+Proof. intros [|n] H; [lia|reflexivity]. Qed.
+
+Lemma keys_up : forall g K x d, (forall d, cnt_good g K d) -> inK K (x :: d) = true -> inK K d = true.
+Proof.
+  intros g K x d Hgood Hin. apply inK_In in Hin.
+  pose proof (nkids_pos K (x :: d) d Hin (is_child_tl x d)) as Hk.
+  unfold inK. rewrite (Hgood d), mk_pos by lia. reflexivity.
+Qed.
+
+Lemma keys_up_sfx : forall g K, (forall d, cnt_good g K d) ->
+  forall d a, inK K d = true -> sfx a d = true -> inK K a = true.
+Proof.
+  intros g K Hgood. induction d as [|x d IH]; intros a Hin Ha; unfold sfx in Ha; simpl in Ha.
+  - rewrite orb_false_r in Ha. destruct a; [exact Hin|discriminate].
+  - apply orb_true_iff in Ha. destruct Ha as [Ha|Ha].
+    + change (path_eqb (x :: d) a = true) in Ha. apply path_eqb_eq in Ha. subst a. exact Hin.
+    + apply IH; [apply (keys_up g K x); assumption|exact Ha].
+Qed.
+
+Lemma vexists_inK : forall s q, vexists base s q = mem_path q base || inK (bd_counts (d_bd s)) q.
+Proof. reflexivity. Qed.
+
+Lemma vex_up_sfx : forall g s, (forall d, cnt_good g (bd_counts (d_bd s)) d) ->
+  forall d a, vexists base s d = true -> sfx a d = true -> vexists base s a = true.
+Proof.
+  intros g s Hgood. induction d as [|x d IH]; intros a Hv Ha; unfold sfx in Ha; simpl in Ha.
+  - rewrite orb_false_r in Ha. destruct a; [exact Hv|discriminate].
+  - apply orb_true_iff in Ha. destruct Ha as [Ha|Ha].
+    + change (path_eqb (x :: d) a = true) in Ha. apply path_eqb_eq in Ha. subst a. exact Hv.
+    + apply IH; [|exact Ha]. rewrite vexists_inK in *. apply orb_true_iff in Hv. apply orb_true_iff.
+      destruct Hv as [Hv|Hv]; [left; apply (base_up x); exact Hv|right; apply (keys_up g _ x); assumption].
+Qed.
+
+(* _dirs_to_make: exactly the ancestors that do not exist virtually *)
+Lemma dtm_mem : forall g s, (forall d, cnt_good g (bd_counts (d_bd s)) d) ->
+  forall d q, mem_path q (dirs_to_make_c base s d) = sfx q d && negb (vexists base s q) && nonroot q.
+Proof.
+  intros g s Hgood. induction d as [|x d IH]; intro q.
+  - simpl. replace (if vexists base s [] then [] else []) with (@nil path) by (destruct (vexists base s []); reflexivity).
+    simpl. unfold sfx. simpl. destruct q; simpl; [rewrite andb_false_r|]; reflexivity.
+  - simpl. destruct (vexists base s (x :: d)) eqn:Ev.
+    + simpl. destruct (sfx q (x :: d)) eqn:Es; [|reflexivity].
+      rewrite (vex_up_sfx g s Hgood _ _ Ev Es). reflexivity.
+    + rewrite mem_path_app, IH. simpl. rewrite orb_false_r.
+      unfold sfx at 2. simpl.
+      change (match q with [] => false | y :: b' => (x =? y)%string && path_eqb d b' end) with (path_eqb (x :: d) q).
+      fold (sfx q d).
+      destruct (path_eqb (x :: d) q) eqn:E.
+      * apply path_eqb_eq in E. subst q. rewrite Ev. simpl. rewrite orb_true_r. reflexivity.
+      * simpl. rewrite orb_false_r. reflexivity.
+Qed.
+
+Definition nf_add (nf : path -> nat) (p : path) : path -> nat :=
+  fun d => nf d + (if is_child p d then 1 else 0).
+Definition nf_sub (nf : path -> nat) (p : path) : path -> nat :=
+  fun d => nf d - (if is_child p d then 1 else 0).
+Definition an_add (an : path -> bool) (p : path) : path -> bool := fun q => an q || below q p.
+
+(* B1b, first half: the critical section decide + mkdir + register *)
+Lemma seg_start_inv : forall nf an s p,
+  Inv nf an s -> Inv (nf_add nf p) (an_add an p) (seg_start base s p).
+Proof.
+  intros nf an s p HI. destruct p as [|x d].
+  - unfold seg_start. simpl.
+    replace (if vexists base s [] then [] else []) with (@nil path) by (destruct (vexists base s []); reflexivity).
+    simpl. apply (Inv_ext nf _ an _); [intro d; unfold nf_add; simpl; lia|intro q; unfold an_add; simpl; rewrite orb_false_r; reflexivity|].
+    destruct HI as [H1 H2]. split; [exact H1|exact H2].
+  - destruct HI as [(H1 & H2 & H3 & H4 & H5) H6].
+    unfold seg_start. cbn [dirname tl].
+    set (ds := dirs_to_make_c base s d).
+    unfold bd_started.
+    set (b0 := bd_with (d_bd s) (bd_counts (d_bd s)) (bd_created (d_bd s)) (bd_err_created (d_bd s))
+                       (bd_removed (d_bd s)) (bd_exists (d_bd s)) (bd_maybe (d_bd s))
+                       (del_path (x :: d) (bd_removed_files (d_bd s)))).
+    assert (Hpost : walk_post (nf_add nf (x :: d)) an (an_add an (x :: d)) (fst (bd_started_from b0 ds d []))).
+    { apply start_walk; cbn [b0 bd_with bd_counts bd_created bd_err_created].
+      - exact H1.
+      - intros d' E. unfold cnt_good, nf_add. simpl. rewrite E, Nat.add_0_r. apply H2.
+      - unfold nf_add. simpl. rewrite path_eqb_refl. lia.
+      - unfold nf_add. simpl. rewrite path_eqb_refl.
+        replace (nf d + 1 + nkids (bd_counts (d_bd s)) d - 1) with (nf d + nkids (bd_counts (d_bd s)) d) by lia.
+        apply H2.
+      - intros q Hq. unfold an_add. rewrite (H3 q Hq). reflexivity.
+      - intros a Ha. unfold an_add. rewrite below_cons, Ha. apply orb_true_r.
+      - exact H4.
+      - exact H5.
+      - intros a Ha Hk. unfold ds. rewrite (dtm_mem nf s H2), Ha, vexists_inK, Hk, orb_false_r. reflexivity. }
+    destruct (bd_started_from b0 ds d []) as [b' acc'] eqn:Eb. cbn [fst] in Hpost.
+    destruct Hpost as (P1 & P2 & P3 & P4 & P5).
+    assert (Hbelow : forall q, below q (x :: d) = true -> inK (bd_counts b') q = true).
+    { intros q Hq. rewrite below_cons in Hq. apply (keys_up_sfx _ _ P2 d); [|exact Hq].
+      unfold inK. rewrite (P2 d), mk_pos; [reflexivity|]. unfold nf_add. simpl. rewrite path_eqb_refl. lia. }
+    split; [split; [exact P1|]; split; [exact P2|]; split; [exact P3|]; split; [exact P4|]|]; cbn [d_bd d_disk].
+    + intro q. rewrite P5. unfold an_add. destruct (below q (x :: d)) eqn:Eq.
+      * rewrite (Hbelow q Eq). rewrite orb_true_r. simpl. rewrite andb_false_r. reflexivity.
+      * rewrite orb_false_r. reflexivity.
+    + intro q. rewrite mem_fold_add, H6. unfold ds. rewrite (dtm_mem nf s H2), vexists_inK.
+      unfold an_add. rewrite below_cons.
+      destruct (sfx q d); [|rewrite orb_false_r; simpl; rewrite orb_false_r; reflexivity].
+      destruct (inK (bd_counts (d_bd s)) q) eqn:Ek.
+      * rewrite (H3 q Ek). simpl. rewrite orb_true_r. simpl. rewrite orb_false_r. reflexivity.
+      * destruct (an q), (mem_path q base), (nonroot q); reflexivity.
+Qed.
+
+(* B1a + B1b, second half: releasing the reservations of a reserved file never raises
+   KeyError and keeps the invariant *)
+Lemma seg_fail_inv : forall nf an s p,
+  Inv nf an s -> (forall x d, p = x :: d -> 1 <= nf d) ->
+  exists s', seg_fail s p = Some s' /\ Inv (nf_sub nf p) an s'.
+Proof.
+  intros nf an s p HI Hres. destruct p as [|x d].
+  - unfold seg_fail. simpl. eexists. split; [reflexivity|].
+    apply (Inv_ext nf _ an _); [intro d; unfold nf_sub; simpl; lia|reflexivity|].
+    destruct HI as [H1 H2]. split; [exact H1|exact H2].
+  - destruct HI as [(H1 & H2 & H3 & H4 & H5) H6]. specialize (Hres x d eq_refl).
+    destruct (fail_walk (nf_sub nf (x :: d)) an d (d_bd s)) as [b' [Hb' Hpost]].
+    + exact H1.
+    + intros d' E. unfold cnt_good, nf_sub. simpl. rewrite E, Nat.sub_0_r. apply H2.
+    + rewrite (H2 d). unfold nf_sub. simpl. rewrite path_eqb_refl.
+      replace (nf d + nkids (bd_counts (d_bd s)) d) with (nf d - 1 + nkids (bd_counts (d_bd s)) d + 1) by lia.
+      apply mk_S.
+    + exact H3.
+    + exact H4.
+    + exact H5.
+    + unfold seg_fail. simpl. rewrite Hb'. eexists. split; [reflexivity|]. split; [exact Hpost|exact H6].
 Qed.
 End Dirs.
